@@ -77,6 +77,7 @@ type kvRun struct {
 	seen      map[string]bool   // every real version string observed so far
 	expOf     map[int]time.Time // model version -> expiration instant written
 	stalled   bool
+	verList   []string // real version strings in the order they were handed out
 	expStamp  time.Time // Redis: when the expiration of the write under way was computed
 	pastCount int
 	wrotePast bool // a record with an expiration in the past was just written
@@ -105,6 +106,9 @@ func valOf(s string) []byte {
 func sameVal(real []byte, model string) bool {
 	if model == "nil" || model == "empty" {
 		model = ""
+	}
+	if i := strings.Index(string(real), "|prev="); i >= 0 {
+		real = real[:i]
 	}
 	return string(real) == model
 }
@@ -183,7 +187,23 @@ func (r *kvRun) matchVer(model int, real string) bool {
 	}
 	r.seen[real] = true
 	r.bound[model] = real
+	r.verList = append(r.verList, real)
 	return true
+}
+
+// valOf: the bytes written for a model value.  A non-empty value also QUOTES the version strings handed out so far (the
+// last four), the way records that link to their predecessors do ("prev=<version>"): what a value contains is the
+// caller's business and must never be taken for the record's version.  sameVal compares the part before the quote.
+func (r *kvRun) valOf(s string) []byte {
+	b := valOf(s)
+	if len(b) == 0 || len(r.verList) == 0 {
+		return b
+	}
+	from := len(r.verList) - 4
+	if from < 0 {
+		from = 0
+	}
+	return []byte(s + "|prev=" + strings.Join(r.verList[from:], ","))
 }
 
 func (r *kvRun) argVer(model int) string {
@@ -234,7 +254,7 @@ func (r *kvRun) step(i int, s Step) *Failure {
 	switch s.Str("op") {
 	case "Create":
 		e := r.expTime(s.Str("exp"))
-		ver, err := st.Create(ctx, kvs.Record{Key: k, Value: valOf(s.Str("val")), ExpiresAt: e})
+		ver, err := st.Create(ctx, kvs.Record{Key: k, Value: r.valOf(s.Str("val")), ExpiresAt: e})
 		if errClass(err) != s.Str("err") {
 			return fail(i, s, "error class differs (want "+s.Str("err")+")", errClass(err))
 		}
@@ -289,7 +309,7 @@ func (r *kvRun) step(i int, s Step) *Failure {
 		}
 	case "Put":
 		e := r.expTime(s.Str("exp"))
-		rec, err := st.Put(ctx, kvs.Record{Key: k, Value: valOf(s.Str("val")), Version: r.anyOldVersion(), ExpiresAt: e})
+		rec, err := st.Put(ctx, kvs.Record{Key: k, Value: r.valOf(s.Str("val")), Version: r.anyOldVersion(), ExpiresAt: e})
 		if err != nil {
 			return fail(i, s, "unexpected error", err.Error())
 		}
@@ -312,14 +332,14 @@ func (r *kvRun) step(i int, s Step) *Failure {
 			if e != nil {
 				r.expOf[first+j] = *e
 			}
-			recs = append(recs, kvs.Record{Key: keyOf(wm["k"]), Value: valOf(wm["val"].(string)), Version: r.anyOldVersion(), ExpiresAt: e})
+			recs = append(recs, kvs.Record{Key: keyOf(wm["k"]), Value: r.valOf(wm["val"].(string)), Version: r.anyOldVersion(), ExpiresAt: e})
 		}
 		if err := st.PutMany(ctx, recs); err != nil {
 			return fail(i, s, "unexpected error", err.Error())
 		}
 	case "Cas":
 		e := r.expTime(s.Str("exp"))
-		rec, err := st.CasByVersion(ctx, kvs.Record{Key: k, Value: valOf(s.Str("val")), Version: r.argVer(s.Int("arg")), ExpiresAt: e})
+		rec, err := st.CasByVersion(ctx, kvs.Record{Key: k, Value: r.valOf(s.Str("val")), Version: r.argVer(s.Int("arg")), ExpiresAt: e})
 		if errClass(err) != s.Str("err") {
 			return fail(i, s, "error class differs (want "+s.Str("err")+")", errClass(err))
 		}
